@@ -45,7 +45,9 @@ def exposed_count(table, seq):
         gs = max([j + 1 for j in range(i) if T[j]["t"] == ""] or [0])
         if any(T[j]["hide"] for j in range(gs, i)): continue
         if any(T[j]["t"] == "<!--" for j in range(i)): continue
-        if e["t"] in ("\ttabbed", "    spaced") and any(T[j]["first"].startswith("LINE_DEF_") for j in range(i)): continue
+        IND = ("\ttabbed", "    spaced", " \tmixed")
+        if e["t"] in IND and any(T[j]["first"].startswith("LINE_DEF_") for j in range(i)): continue
+        if any(T[j]["t"] in IND and any(T[k]["first"].startswith("LINE_DEF_") for k in range(j)) for j in range(gs, i)): continue
         n += 1
     return n
 
@@ -178,6 +180,13 @@ def run(tier, seed):
     edocs += [("seq", [ix["Key: value"], ix[""]] + s) for s in short] + [("seq", [ix["a | b"], ix["--|:-:"], ix["| c |"]] + s) for s in short]
     # ... and followed by a reference definition for the label the bracket lines use
     edocs += [("seq", s + [ix[""], ix["[cap]: http://x"]]) for s in short]
+    # continuation lines: every line that opens a container, a blank line, every spelling of an indented line (and a plain line after it)
+    OPENERS = ["* item", "1. item", "   + item", "[^fn]: Note", "[?gl]: Term", "> quote", ": definition", "[#cite]: Cite"]
+    INDENTS = ["\ttabbed", "    spaced", " \tmixed"]
+    for o_ in OPENERS:
+        for n_ in INDENTS:
+            for pre_ in ([], [ix["plain text"]]):
+                edocs += [("seq", pre_ + [ix[o_], ix[""], ix[n_]]), ("seq", pre_ + [ix[o_], ix[""], ix[n_], ix["plain text"]]), ("seq", pre_ + [ix[o_], ix[n_]]), ("seqnf", pre_ + [ix[o_], ix[""], ix[n_]])]
     # metadata that re-configures the conversion (format switch, header levels, languages, inserted headers/footers)
     CONF = ["latex mode: beamer", "latex mode: memoir", "latexmode: article", "base header level: 3", "html header level: 4", "latex header level: -1", "odf header level: 2", "language: de", "quotes language: fr",
             "css: x.css", "html header: <script></script>", "html footer: <!-- f -->", "latex config: article", "latex input: pre", "latex footer: post", "bibtex: refs", "biblio style: plain", "xhtml header: <x/>",
